@@ -496,3 +496,376 @@ Proof.
         -- rewrite E, (X y HyG) in E'. discriminate.
         -- destruct (dir_name_inv y (Hanc y Hcy Hb)) as [_ Hx]. congruence.
 Qed.
+
+(* ================================================================== the transfer, with the pending rename targets as ghost *)
+Definition A_cls (o : op) : Prop := cc_wtq_op o = true.
+
+Definition is_ren_act (i : cc_instr) : bool := match i with CcAct ARenameT | CcAct ARename => true | _ => false end.
+Definition ren_count (code : list cc_instr) : nat := length (filter is_ren_act code).
+Definition is_rename_op (o : op) : bool := match o with Rename _ _ => true | _ => false end.
+
+(* the x targets of the directory renames a thread has not carried out yet: those of the calls not yet
+   started, and that of the running call as long as its code still contains Rename's sections *)
+Definition pend_th (th : cc_thread) : list str :=
+  (if th_active th && existsb is_ren_act (th_code th) then cc_xt_op (fr_op (th_fr th)) else []) ++ cc_xt_ops (th_prog th).
+Definition pend (c : cc_cfg) : list str := flat_map pend_th (cf_threads c).
+
+Definition th_ok (th : cc_thread) : Prop :=
+  Forall A_cls (th_prog th) /\
+  (th_active th = true ->
+   A_cls (fr_op (th_fr th)) /\ cc_code_for (fr_op (th_fr th)) (th_code th) = true /\
+   (is_rename_op (fr_op (th_fr th)) = true -> (ren_count (th_code th) <= 1)%nat)).
+
+Definition J (c : cc_cfg) : Prop :=
+  cf_legacy c = false /\ TI (pend c) (cf_st c) /\ NoDup (pend c) /\
+  forall t th, nth_error (cf_threads c) t = Some th -> th_ok th.
+
+(* ---------- lists ---------- *)
+Lemma flat_map_list_set {A B} (g : A -> list B) l : forall t x y, nth_error l t = Some x ->
+  exists l1 l2, flat_map g l = l1 ++ g x ++ l2 /\ flat_map g (list_set t y l) = l1 ++ g y ++ l2.
+Proof.
+  induction l as [|a l IH]; intros [|t] x y H; cbn in H; try discriminate.
+  - inversion H; subst a. exists [], (flat_map g l). split; reflexivity.
+  - destruct (IH t x y H) as (l1 & l2 & E1 & E2). exists (g a ++ l1), l2. cbn [flat_map list_set].
+    rewrite E1, E2, <- !app_assoc. split; reflexivity.
+Qed.
+
+Lemma nodup_drop {A} (l1 X Y : list A) : NoDup (l1 ++ X ++ Y) -> NoDup (l1 ++ Y) /\ forall x, In x X -> ~ In x (l1 ++ Y).
+Proof.
+  induction X as [|a X IH]; cbn [app]; intros H; [split; [exact H | intros x []]|].
+  apply NoDup_remove in H as [H1 H2]. destruct (IH H1) as [H3 H4]. split; [exact H3|].
+  intros x [<-|Hx]; [|now apply H4]. intros Hin. apply H2. rewrite !in_app_iff in *. tauto.
+Qed.
+
+Lemma ren_count_zero l : ren_count l = 0%nat -> existsb is_ren_act l = false.
+Proof.
+  unfold ren_count. induction l as [|i l IH]; [reflexivity|]. cbn [filter existsb]. destruct (is_ren_act i); cbn; [discriminate | exact IH].
+Qed.
+
+Lemma ren_count_app a b : ren_count (a ++ b) = (ren_count a + ren_count b)%nat.
+Proof. unfold ren_count. now rewrite filter_app, app_length. Qed.
+
+Lemma ren_count_lockonly code : cc_lockonly code = true -> ren_count code = 0%nat.
+Proof.
+  unfold cc_lockonly, ren_count. induction code as [|i code IH]; [reflexivity|]. cbn [forallb filter]. intros H.
+  apply andb_true_iff in H as [H1 H2]. destruct i; try discriminate; cbn; auto.
+Qed.
+
+Lemma ren_count_tl code : (ren_count (tl code) <= ren_count code)%nat.
+Proof. destruct code as [|i code]; [auto|]. unfold ren_count. cbn [tl filter]. destruct (is_ren_act i); cbn; lia. Qed.
+
+(* ---------- what the class says about the x target of a call ---------- *)
+Lemma xt_op_xpath o : A_cls o -> Forall xpath (cc_xt_op o).
+Proof.
+  intros Ho. destruct o as [| | | | | | |p0 q0| | | | | | | | | | | | | | | | |]; cbn [cc_xt_op]; try constructor.
+  destruct (cc_is_x_name q0) eqn:Hx; constructor; [|constructor].
+  unfold A_cls, cc_wtq_op in Ho. cbn [cc_wt_op cc_names_ok] in Ho. split_andb.
+  match goal with H : wf_name q0 = true |- _ => pose proof (wf_name_canon _ H) as Hc end.
+  split; [exact Hc|]. split; [now rewrite x_name_norm | now apply anc_ok_spec].
+Qed.
+
+Lemma xt_ops_xpath ops : Forall A_cls ops -> Forall xpath (cc_xt_ops ops).
+Proof.
+  intros H. unfold cc_xt_ops. induction H as [|o ops Ho _ IH]; [constructor|]. cbn [flat_map].
+  apply Forall_app. split; [now apply xt_op_xpath | exact IH].
+Qed.
+
+Lemma pend_th_xpath th : th_ok th -> Forall xpath (pend_th th).
+Proof.
+  intros [Hp Ha]. unfold pend_th. apply Forall_app. split; [|now apply xt_ops_xpath].
+  destruct (th_active th) eqn:E; [|constructor]. cbn [andb]. destruct (existsb _ _); [|constructor].
+  apply xt_op_xpath. now apply Ha.
+Qed.
+
+Lemma pend_xpath c : (forall t th, nth_error (cf_threads c) t = Some th -> th_ok th) -> Forall xpath (pend c).
+Proof.
+  intros H. unfold pend. apply Forall_forall. intros y Hy. apply in_flat_map in Hy as (th & Hin & Hy).
+  apply In_nth_error in Hin as [t Hn]. pose proof (pend_th_xpath th (H t th Hn)) as Hf. rewrite Forall_forall in Hf. auto.
+Qed.
+
+Lemma pend_th_in c t th y : nth_error (cf_threads c) t = Some th -> In y (pend_th th) -> In y (pend c).
+Proof. intros Hn Hy. unfold pend. apply in_flat_map. exists th. split; [eapply nth_error_In; eauto | exact Hy]. Qed.
+
+(* ---------- re-establishing J after a step of thread t ---------- *)
+Lemma J_upd c c' t th th' :
+  J c -> nth_error (cf_threads c) t = Some th ->
+  cf_legacy c' = false -> cf_threads c' = list_set t th' (cf_threads c) ->
+  th_ok th' -> pend_th th' = pend_th th -> TI (pend c) (cf_st c') -> J c'.
+Proof.
+  intros (Hlg & T & Hnd & Hall) Hn Hlg' Hth Hok Hpe T'.
+  assert (Ep : pend c' = pend c).
+  { unfold pend. rewrite Hth. destruct (flat_map_list_set pend_th (cf_threads c) t th th' Hn) as (l1 & l2 & E1 & E2).
+    rewrite E1, E2, Hpe. reflexivity. }
+  split; [exact Hlg'|]. rewrite Ep. split; [exact T'|]. split; [exact Hnd|].
+  rewrite Hth. eapply threads_set; eauto.
+Qed.
+
+Lemma J_drop c c' t th th' X :
+  J c -> nth_error (cf_threads c) t = Some th ->
+  cf_legacy c' = false -> cf_threads c' = list_set t th' (cf_threads c) ->
+  th_ok th' -> pend_th th = X ++ pend_th th' ->
+  (forall G', incl G' (pend c) -> (forall x, In x X -> ~ In x G') -> TI G' (cf_st c')) -> J c'.
+Proof.
+  intros (Hlg & T & Hnd & Hall) Hn Hlg' Hth Hok Hpe T'.
+  destruct (flat_map_list_set pend_th (cf_threads c) t th th' Hn) as (l1 & l2 & E1 & E2).
+  fold (pend c) in E1. rewrite <- Hth in E2. fold (pend c') in E2. rewrite Hpe, <- app_assoc in E1.
+  rewrite E1 in Hnd. destruct (nodup_drop l1 X (pend_th th' ++ l2) Hnd) as [Hnd' Hnot].
+  split; [exact Hlg'|]. rewrite E2. split; [|split; [exact Hnd'|]].
+  - apply T'; [|exact Hnot]. rewrite E1. intros y Hy. rewrite !in_app_iff in *. tauto.
+  - rewrite Hth. eapply threads_set; eauto.
+Qed.
+
+(* ---------- the sections ---------- *)
+Definition A_nr (o : op) : Prop := A_cls o /\ is_rename_op o = false.
+
+(* every section but Rename's two: cc_sem_P with the ghost fixed *)
+Lemma cc_sem_TI G a f s : Forall xpath G -> A_nr (fr_op f) -> cc_aid_for a (fr_op f) = true -> TI G s ->
+  match cc_sem a f s with CcCont s' _ _ => TI G s' | CcPanic s' => TI G s' end.
+Proof.
+  intros HG. apply (cc_sem_P (TI G) A_nr).
+  - intros s0 s1. apply TI_tree.
+  - intros s0 p [Ha _] T. now apply TI_create.
+  - intros s0 p fl pm s' x [Ha _] Hoc T. eapply TI_open_or_create; eauto.
+  - intros s0 p [Ha _] T. now apply TI_removeall.
+  - intros s0 p pm Ha Hl T. apply TI_mkdir_body; auto. destruct Ha as [[Ha _]|[Ha _]]; auto.
+  - intros s0 p [Ha _] T. now apply TI_remove.
+  - intros s0 p q [_ Ha]. discriminate.
+Qed.
+
+Lemma xt_op_nonrename o : is_rename_op o = false -> cc_xt_op o = [].
+Proof. destruct o; try reflexivity. discriminate. Qed.
+
+Lemma aid_nonrename a o : cc_aid_for a o = true -> is_ren_act (CcAct a) = false -> is_rename_op o = false.
+Proof. intros Ha Hr. destruct o; try reflexivity. destruct a; try discriminate Ha; discriminate Hr. Qed.
+
+Lemma aid_rename a o : cc_aid_for a o = true -> is_ren_act (CcAct a) = true -> exists p q, o = Rename p q.
+Proof. intros Ha Hr. destruct a; try discriminate Hr; destruct o; try discriminate Ha; eauto. Qed.
+
+Lemma tick_tree s : cc_tree_of (cc_tick s) = cc_tree_of s.
+Proof. reflexivity. Qed.
+
+Lemma pend_th_eq th th' :
+  th_prog th' = th_prog th -> th_active th' = th_active th -> fr_op (th_fr th') = fr_op (th_fr th) ->
+  existsb is_ren_act (th_code th') = existsb is_ren_act (th_code th) -> pend_th th' = pend_th th.
+Proof. intros H1 H2 H3 H4. unfold pend_th. now rewrite H1, H2, H3, H4. Qed.
+
+Lemma th_ok_tl th th' :
+  th_ok th -> th_prog th' = th_prog th -> th_active th' = th_active th -> th_fr th' = th_fr th ->
+  (th_code th' = tl (th_code th) \/ th_code th' = th_code th) -> th_ok th'.
+Proof.
+  intros [Hp Ha] H1 H2 H3 H4. split; [now rewrite H1|]. rewrite H2, H3. intros Hact. destruct (Ha Hact) as (HA & Hcf & Hrc).
+  split; [exact HA|]. destruct H4 as [-> | ->]; (split; [|intros Hr; specialize (Hrc Hr)]); auto.
+  - now apply forallb_tl.
+  - pose proof (ren_count_tl (th_code th)). lia.
+Qed.
+
+Lemma existsb_tl_lock (i : cc_instr) r : is_ren_act i = false -> existsb is_ren_act (tl (i :: r)) = existsb is_ren_act (i :: r).
+Proof. intros H. cbn [tl existsb]. now rewrite H. Qed.
+
+Ltac lgl := cbn [cf_legacy cf_set_thread]; first [reflexivity | assumption].
+
+Lemma conc_step_J c t : J c -> J (cc_step c t).
+Proof.
+  intros HJ. pose proof HJ as (Hlg & T & Hnd & Hall). unfold cc_step. rewrite Hlg. destruct (cc_enabled c t); cbn [negb]; [|exact HJ].
+  destruct (nth_error (cf_threads c) t) as [th|] eqn:Hn; [|exact HJ].
+  pose proof (Hall t th Hn) as Hok. pose proof Hok as [Hprog Hact].
+  assert (HG : Forall xpath (pend c)) by now apply pend_xpath.
+  destruct (cc_next_of th) eqn:Hnx; [ | | | |exact HJ].
+  - (* a call starts *)
+    apply next_start in Hnx as (Hina & o & rest & Hp). rewrite Hp.
+    destruct (cc_begin false o (th_slots th)) as [f code] eqn:Hb.
+    pose proof (cc_begin_for o (th_slots th)) as [H1 H2]. rewrite Hb in H1, H2. cbn [fst snd] in H1, H2.
+    rewrite Hp in Hprog. inversion Hprog as [|? ? HAo Hrest]; subst.
+    eapply (J_upd c _ t th); [exact HJ | exact Hn | lgl | reflexivity | | | exact T].
+    + split; cbn [th_prog th_active th_fr th_code]; [exact Hrest|]. intros _. split; [exact HAo|]. split; [exact H2|].
+      intros Hr. destruct (fr_op f); try discriminate Hr. cbn in Hb. inversion Hb; subst. cbn. lia.
+    + unfold pend_th. cbn [th_prog th_active th_fr th_code]. rewrite Hina, Hp. cbn [andb app cc_xt_ops flat_map].
+      destruct (is_rename_op (fr_op f)) eqn:Hr.
+      * destruct (fr_op f); try discriminate Hr. cbn in Hb. inversion Hb; subst. reflexivity.
+      * rewrite (xt_op_nonrename _ Hr). now destruct (existsb is_ren_act code).
+  - (* an instruction *)
+    apply next_instr in Hnx as (Hactive & r & Hc). destruct (Hact Hactive) as (HA & Hcf & Hrc).
+    destruct i as [l x|l|l|a].
+    + unfold cc_acquire. destruct l; (eapply (J_upd c _ t th); [exact HJ | exact Hn | lgl | reflexivity | | | exact T];
+        [eapply th_ok_tl; eauto | apply pend_th_eq; try reflexivity; cbn [th_code th_set_held th_set_code]; rewrite Hc; reflexivity]).
+    + destruct (cc_release_shape c t (th_set_code th (tl (th_code th))) l) as (Hs & x & Hx & Hp & Ha & Hf & Hcd & _).
+      eapply (J_upd c _ t th); [exact HJ | exact Hn | now rewrite cc_release_legacy | exact Hx | | | now rewrite Hs].
+      * eapply th_ok_tl; eauto.
+      * apply pend_th_eq; auto; [now rewrite Hf|]. rewrite Hcd. cbn [th_code th_set_code]. rewrite Hc. reflexivity.
+    + eapply (J_upd c _ t th); [exact HJ | exact Hn | lgl | reflexivity | | | exact T];
+        [eapply th_ok_tl; eauto | apply pend_th_eq; try reflexivity; cbn [th_code th_set_defers th_set_code]; rewrite Hc; reflexivity].
+    + (* a section *)
+      rewrite Hc in Hcf. cbn [cc_code_for forallb] in Hcf. apply andb_true_iff in Hcf as [Hfa Hcr].
+      pose proof (cc_sem_for a (th_fr th) (cf_st c) Hfa) as Hfor.
+      cbn [th_code th_set_code]. rewrite Hc. cbn [tl].
+      destruct (is_ren_act (CcAct a)) eqn:Hra.
+      * (* Rename's sections *)
+        destruct (aid_rename a _ Hfa Hra) as (p & q & Hop).
+        assert (Hrc1 : ren_count r = 0%nat).
+        { specialize (Hrc ltac:(now rewrite Hop)). rewrite Hc in Hrc. unfold ren_count in *. cbn [filter] in Hrc. rewrite Hra in Hrc. cbn in Hrc. lia. }
+        destruct a; try discriminate Hra.
+        -- (* ARenameT: the transient locks *)
+           cbn [cc_sem] in *. destruct Hfor as [_ Hfor].
+           eapply (J_upd c _ t th); [exact HJ | exact Hn | lgl | reflexivity | | | ].
+           ++ split; cbn [th_prog th_active th_fr th_code]; [exact Hprog|]. intros _. split; [exact HA|]. split.
+              ** unfold cc_code_for in *. rewrite forallb_app, Hfor. exact Hcr.
+              ** intros _. rewrite !ren_count_app, Hrc1, (ren_count_lockonly _ (lockonly_rename_code _ _ _)). cbn. lia.
+           ++ unfold pend_th. cbn [th_prog th_active th_fr th_code]. rewrite Hactive, Hc. cbn [andb existsb is_ren_act orb].
+              rewrite !existsb_app. cbn [existsb is_ren_act]. now rewrite orb_true_r.
+           ++ cbn [cf_st]. eapply TI_tree; [|exact T]. symmetry. apply tick_tree.
+        -- (* ARename: the move *)
+           cbn [cc_sem] in *. rewrite Hop in *. cbn [cc_path] in *.
+           assert (Hpe : forall th', th_prog th' = th_prog th -> th_active th' = true -> existsb is_ren_act (th_code th') = false ->
+                     pend_th th = cc_xt_op (Rename p q) ++ pend_th th').
+           { intros th' E1 E2 E3. unfold pend_th. rewrite E1, E2, E3, Hactive, Hc, Hop. reflexivity. }
+           assert (HT : forall G', incl G' (pend c) -> (forall y, In y (cc_xt_op (Rename p q)) -> ~ In y G') ->
+                     TI G' (fst (m_rename (cc_tick (cf_st c)) (normalize_path p) q))).
+           { intros G' Hi Hx. apply (TI_rename (pend c)); auto.
+             - eapply TI_tree; [|exact T]. symmetry. apply tick_tree.
+             - intros Hxq. apply (pend_th_in c t th); [exact Hn|]. unfold pend_th. rewrite Hactive, Hc, Hop. cbn [andb existsb is_ren_act orb cc_xt_op].
+               rewrite Hxq. now left.
+             - intros Hxq. apply Hx. cbn [cc_xt_op]. rewrite Hxq. now left. }
+           destruct (m_rename (cc_tick (cf_st c)) (normalize_path p) q) as [s1 res] eqn:Hm. cbn [fst] in HT.
+           assert (Hok' : forall fr' code' lk, fr_op fr' = Rename p q -> code' = r \/ code' = [] ->
+                     th_ok (mkCcT (th_prog th) true code' (th_defers th) fr' (th_slots th) (th_results th) (th_mu th) (th_f th) lk)).
+           { intros fr' code' lk Hfr Hcode. split; cbn [th_prog th_active th_fr th_code]; [exact Hprog|]. intros _. rewrite Hfr.
+             split; [exact HA|]. destruct Hcode as [-> | ->]; (split; [|intros _; cbn; lia]); [exact Hcr | reflexivity]. }
+           destruct res; cbn [app];
+             try (eapply (J_drop c _ t th _ (cc_xt_op (Rename p q)));
+                  [exact HJ | exact Hn | lgl | reflexivity | apply Hok'; [cbn; now rewrite Hop | now left]
+                  | apply Hpe; [reflexivity | reflexivity | exact (ren_count_zero r Hrc1)] | exact HT]).
+           (* the panic: the rest of the call is skipped *)
+           eapply (J_drop c _ t th _ (cc_xt_op (Rename p q)));
+             [exact HJ | exact Hn | lgl | reflexivity | apply Hok'; [cbn; now rewrite Hop | now right]
+             | apply Hpe; reflexivity | ].
+           cbn [cf_st]. intros G' Hi _. apply (TI_incl (pend c)); [exact Hi|]. eapply TI_tree; [|exact T]. symmetry. apply tick_tree.
+      * (* the sections of the other methods *)
+        pose proof (aid_nonrename a _ Hfa Hra) as Hnr.
+        pose proof (cc_sem_TI (pend c) a (th_fr th) (cf_st c) HG (conj HA Hnr) Hfa T) as HT.
+        destruct (cc_sem a (th_fr th) (cf_st c)) as [s1 f1 code1|s1].
+        -- destruct Hfor as [Hfo Hfc].
+           eapply (J_upd c _ t th); [exact HJ | exact Hn | lgl | reflexivity | | | exact HT].
+           ++ split; cbn [th_prog th_active th_fr th_code]; [exact Hprog|]. intros _. rewrite Hfo. split; [exact HA|]. split.
+              ** unfold cc_code_for in *. rewrite forallb_app, Hfc. exact Hcr.
+              ** rewrite Hnr. discriminate.
+           ++ unfold pend_th. cbn [th_prog th_active th_fr th_code]. rewrite Hfo, (xt_op_nonrename _ Hnr). now destruct (_ && _)%bool, (_ && _)%bool.
+        -- eapply (J_upd c _ t th); [exact HJ | exact Hn | lgl | reflexivity | | | exact HT].
+           ++ split; cbn [th_prog th_active th_fr th_code]; [exact Hprog|]. intros _. cbn. split; [exact HA|]. split; [reflexivity|].
+              rewrite Hnr. discriminate.
+           ++ unfold pend_th. cbn [th_prog th_active th_fr th_code]. cbn [fr_op fr_set_res]. rewrite (xt_op_nonrename _ Hnr). now destruct (_ && _)%bool, (_ && _)%bool.
+  - (* a deferred unlock *)
+    apply next_deferred in Hnx as (Hactive & Hc & d & Hd).
+    destruct (cc_release_shape c t (th_set_defers th (tl (th_defers th))) l) as (Hs & x & Hx & Hp & Ha & Hf & Hcd & _).
+    eapply (J_upd c _ t th); [exact HJ | exact Hn | now rewrite cc_release_legacy | exact Hx | | | now rewrite Hs].
+    + eapply th_ok_tl; eauto.
+    + apply pend_th_eq; auto; [now rewrite Hf | now rewrite Hcd].
+  - (* the call returns *)
+    apply next_finish in Hnx as (Hactive & Hc & Hd).
+    eapply (J_upd c _ t th); [exact HJ | exact Hn | lgl | reflexivity | | | exact T].
+    + split; cbn [th_prog th_active]; [exact Hprog | discriminate].
+    + unfold pend_th. cbn [th_prog th_active th_fr th_code]. rewrite Hactive, Hc. reflexivity.
+Qed.
+
+(* ================================================================== all schedules *)
+Lemma conc_run_J sched : forall c, J c -> J (run_sched_from c sched).
+Proof. unfold run_sched_from. induction sched as [|t sched IH]; intros c H; [exact H|]. cbn [fold_left]. apply IH. now apply conc_step_J. Qed.
+
+Lemma nodupb_spec l : cc_nodupb l = true -> NoDup l.
+Proof.
+  induction l as [|x l IH]; cbn [cc_nodupb]; intros H; [constructor|]. apply andb_true_iff in H as [H1 H2].
+  constructor; [|now apply IH]. intros Hin. apply negb_true_iff in H1.
+  assert (E : existsb (beqb x) l = true) by (apply existsb_exists; exists x; split; [exact Hin | apply beqb_refl]). congruence.
+Qed.
+
+Lemma pend_init s progs : pend (cc_init_from s progs) = cc_xtargets progs.
+Proof.
+  unfold pend, cc_init_from, cc_init_gen, cc_xtargets. cbn [cf_threads]. induction progs as [|sp progs IH]; [reflexivity|].
+  cbn [map flat_map]. now rewrite IH.
+Qed.
+
+Lemma conc_init_J s0 progs : WF s0 -> cc_kinds_ok s0 = true -> cc_wtq s0 progs = true -> J (cc_init_from s0 progs).
+Proof.
+  intros W Hk Hcl. unfold cc_wtq, cc_xfresh in Hcl. split_andb.
+  split; [reflexivity|]. rewrite pend_init. split; [|split; [now apply nodupb_spec|]].
+  - split; [exact W | now apply kinds_ok_KI |]. intros y Hy.
+    match goal with H : forallb (cc_absent s0) _ = true |- _ => rewrite forallb_forall in H; specialize (H y Hy) end.
+    unfold cc_absent in *. change (lookup s0 y = None). now destruct (lookup s0 y).
+  - intros t th Hn. cbn [cc_init_from cc_init_gen cf_threads] in Hn. rewrite nth_error_map in Hn.
+    destruct (nth_error progs t) as [sp|] eqn:Hs; [|discriminate]. inversion Hn; subst th. split; cbn; [|discriminate].
+    match goal with H : forallb _ progs = true |- _ => rewrite forallb_forall in H; specialize (H sp (nth_error_In _ _ Hs)) end.
+    apply Forall_forall. intros o Ho. unfold A_cls.
+    match goal with H : forallb cc_wtq_op _ = true |- _ => rewrite forallb_forall in H; now apply H end.
+Qed.
+
+(* ================================================================== WF and the three clauses of the property *)
+(* the clauses over the path map (the existing paths) and the child indexes (the listings):
+   C1: every existing path other than the root has an existing parent, which is a directory and lists
+       the path — under the path's own name, as that node;
+   C2: every entry listed by an existing directory exists — under the listed name, as the listed
+       node — and that directory is its parent. *)
+Definition cc_clause_parent (s : mst) : Prop :=
+  forall k r, In (k, r) (mdata s) -> k <> s_slash ->
+    exists pr pn, lookup s (cc_parent_path k) = Some pr /\ get_node s pr = Some pn /\
+                  ndir pn = true /\ nhasdir pn = true /\ alist_get k (nkids pn) = Some r.
+Definition cc_clause_listed (s : mst) : Prop :=
+  forall d p, In (d, p) (mdata s) ->
+    exists n, get_node s p = Some n /\
+      forall name c, In (name, c) (nkids n) -> lookup s name = Some c /\ cc_parent_path name = d.
+Definition cc_tree_consistent (s : mst) : Prop := cc_clause_parent s /\ cc_clause_listed s.
+
+Lemma cc_consistentb_spec s : cc_consistentb s = true <-> cc_tree_consistent s.
+Proof.
+  unfold cc_consistentb, cc_tree_consistent, cc_clause_parent, cc_clause_listed. rewrite andb_true_iff, !forallb_forall. split.
+  - intros [H1 H2]. split.
+    + intros k r Hin Hne. specialize (H1 (k, r) Hin). unfold cc_entry_ok in H1.
+      assert (E : beqb k s_slash = false) by now apply beqb_neq. rewrite E in H1. cbn [orb] in H1.
+      destruct (lookup s (cc_parent_path k)) as [pr|]; [|discriminate]. apply andb_true_iff in H1 as [Hd H1].
+      unfold cc_is_dir_node in Hd. destruct (get_node s pr) as [pn|] eqn:Hpn; [|discriminate]. apply andb_true_iff in Hd as [Hd1 Hd2].
+      destruct (alist_get k (nkids pn)) as [r'|] eqn:Hg; [|discriminate]. apply Nat.eqb_eq in H1. subst r'. exists pr, pn. auto.
+    + intros d p Hin. specialize (H2 (d, p) Hin). unfold cc_listing_ok in H2. destruct (get_node s p) as [n|] eqn:Hnn; [|discriminate].
+      exists n. split; [reflexivity|]. intros name c Hc. rewrite forallb_forall in H2. specialize (H2 (name, c) Hc). cbn [fst snd] in H2.
+      destruct (lookup s name) as [r'|] eqn:Hln; [|discriminate]. apply andb_true_iff in H2 as [E1 E2]. apply Nat.eqb_eq in E1. apply beqb_eq in E2.
+      now subst.
+  - intros [H1 H2]. split.
+    + intros [k r] Hin. unfold cc_entry_ok. destruct (beqb k s_slash) eqn:E; [reflexivity|]. apply beqb_neq in E. cbn [orb].
+      destruct (H1 k r Hin E) as (pr & pn & -> & Hpn & Hd1 & Hd2 & Hg). unfold cc_is_dir_node. rewrite Hpn, Hd1, Hd2, Hg.
+      cbn [andb]. apply Nat.eqb_refl.
+    + intros [d p] Hin. unfold cc_listing_ok. destruct (H2 d p Hin) as (n & -> & Hk). apply forallb_forall. intros [name c] Hc.
+      cbn [fst snd]. destruct (Hk name c Hc) as [-> ->]. now rewrite Nat.eqb_refl, beqb_refl.
+Qed.
+
+Lemma parent_path_canon k : canon k -> cc_parent_path k = par k.
+Proof. intros Hc. unfold cc_parent_path. now apply find_parent_path. Qed.
+
+Theorem WF_tree_consistent s : WF s -> cc_tree_consistent s.
+Proof.
+  intros W. split.
+  - intros k r Hin Hne. pose proof (in_aget _ _ _ (g_nodup _ _ _ _ W) Hin) as Hl.
+    destruct (g_par _ _ _ _ W k r Hl (WF_fresh s k r W Hl) Hne) as (p & pn & Hp & Hpn & Hpd & Hk); [intros [] | intros [] |].
+    destruct (g_node _ _ _ _ W _ _ Hp) as (pn' & Hpn' & _ & Hdh & _). rewrite Hpn in Hpn'. inversion Hpn'; subst pn'.
+    exists p, pn. rewrite (parent_path_canon k (g_canon _ _ _ _ W k r Hl)). repeat split; auto. congruence.
+  - intros d p Hin. pose proof (in_aget _ _ _ (g_nodup _ _ _ _ W) Hin) as Hl.
+    destruct (g_node _ _ _ _ W _ _ Hl) as (n & Hn & _ & _ & Hnd). exists n. split; [exact Hn|]. intros name c Hc.
+    pose proof (in_aget _ _ _ Hnd Hc) as Hg.
+    destruct (g_kids _ _ _ _ W d p n name c Hl Hn Hg) as (Hy & [[]|(_ & _ & Hlc & _)]). split; [exact Hlc|].
+    rewrite (parent_path_canon name (g_canon _ _ _ _ W name c Hlc)).
+    apply (GWF_inj _ _ _ s (par name) d p W); auto.
+Qed.
+
+Corollary WF_consistentb s : WF s -> cc_consistentb s = true.
+Proof. intros W. apply cc_consistentb_spec. now apply WF_tree_consistent. Qed.
+
+(* ================================================================== the theorem *)
+Theorem conc_quiescent_TI s0 progs sched :
+  WF s0 -> cc_kinds_ok s0 = true -> cc_wtq s0 progs = true ->
+  J (cc_run_from s0 progs sched).
+Proof. intros W Hk Hcl. unfold cc_run_from. apply conc_run_J. now apply conc_init_J. Qed.
+
+Theorem conc_quiescent_consistent s0 progs sched :
+  WF s0 -> cc_kinds_ok s0 = true -> cc_wtq s0 progs = true ->
+  let s := cf_st (cc_run_from s0 progs sched) in
+  WF s /\ cc_consistentb s = true /\ cc_clause_parent s /\ cc_clause_listed s.
+Proof.
+  intros W Hk Hcl s. destruct (conc_quiescent_TI s0 progs sched W Hk Hcl) as (_ & [W' _ _] & _).
+  split; [exact W'|]. split; [now apply WF_consistentb | now apply WF_tree_consistent].
+Qed.
